@@ -1,4 +1,6 @@
 from props.tensor import run_tensor
 LEVEL = 'proof'
 def run(R):
+    from engine.canary import run_canaries
+    run_canaries(R, ('e1',))
     run_tensor(R, 'C04')
